@@ -53,6 +53,7 @@ class AList(list):
         self.extra = extra
 
 
+CTOR_ATTRS = {}        # abstract class name -> {attribute assigned in the real __init__: ("const", value) | ("unknown", None)}
 CLASS_METHODS = {}     # abstract class name -> names of methods / properties of the real class(es) it stands for
 
 
@@ -60,9 +61,26 @@ def register_class(name, repo, *classinfos):
     """an attribute of an abstract object that exists on the real class but has no summary is a modelling
     gap (Undecided), not an AttributeError of the analysed program"""
     names = CLASS_METHODS.setdefault(name, set())
+    consts = CTOR_ATTRS.setdefault(name, {})
     for ci in classinfos:
         for c in repo.mro(ci):
             names |= set(c.methods) | set(c.getters) | set(c.setters)
+            init = c.methods.get("__init__")
+            if init is None:
+                continue
+            seen = {}
+            for n in ast.walk(init.node):
+                if isinstance(n, ast.Assign):
+                    for t in n.targets:
+                        if isinstance(t, ast.Attribute) and isinstance(t.value, ast.Name) and t.value.id == "self":
+                            seen.setdefault(t.attr, []).append(n.value)
+            for attr, vals in seen.items():
+                if attr in consts:
+                    continue
+                if len(vals) == 1 and isinstance(vals[0], ast.Constant) and (vals[0].value is None or isinstance(vals[0].value, (bool, int, float, str))):
+                    consts[attr] = ("const", vals[0].value)
+                else:
+                    consts[attr] = ("unknown", None)
 
 
 class Raised(Exception):
@@ -368,6 +386,12 @@ class Abs:
                 return ("method", attr)      # any other attribute of an open object is an opaque bound method
             if (base is self.self_obj and attr in self.class_methods) or attr in CLASS_METHODS.get(base.cls, ()):
                 raise Undecided("no summary for %s.%s" % (base.cls, attr))
+            ca = CTOR_ATTRS.get(base.cls, {}).get(attr)
+            if ca is not None:
+                # the real constructor sets this attribute; the rule's abstract object did not provide it
+                if ca[0] == "const":
+                    return ca[1]
+                raise Undecided("attribute %s.%s is set by the constructor but not provided by the rule's abstract object" % (base.cls, attr))
             raise Raised("AttributeError(%s.%s)" % (base.cls, attr))
         if isinstance(base, dict) and attr in ("items", "keys", "values", "get", "update", "copy"):
             return ("dictm", attr, base)
